@@ -19,8 +19,8 @@ CASES = [
       "                for params, prms in zip(p2calc, self.params):\n                    \n                    ftype = prms[\"ftype\"]\n",
       "                for params, prms in zip(p2calc, self.params):\n                    \n                    ftype = self.params[0][\"ftype\"]\n"),
     m("add_to_data forgets the reorganisation energy", "C09-B", C,
-      "            self.data += other.data\n            self.lamb += other.lamb  # reorganization energy is additive\n            if other.cutoff_time",
-      "            self.data += other.data\n            if other.cutoff_time"),
+      "            self.lamb += other.lamb  # reorganization energy is additive\n            if other.cutoff_time",
+      "            if other.cutoff_time"),
     m("only the first component of the right operand is recorded", "C09-B", S,
       "            for p in other.params:\n                self.params.append(p)            ", "            self.params.append(other.params[0])            "),
     m("temperature check removed", "C09-B", C,
@@ -81,8 +81,8 @@ CASES += [
 CASES += [
     {"name": "temperatures compared after the data were added (the repaired defect)", "kind": "mutant", "rule": "C09-B", "edits": [
         ("quantarhei/qm/corfunctions/correlationfunctions.py",
-         "            # refuse before anything is changed\n            if self.temperature != other.temperature:\n                raise Exception(\"Cannot add two correlation functions on different temperatures\")\n    \n            self.data += other.data\n            self.lamb += other.lamb  # reorganization energy is additive\n",
-         "            self.data += other.data\n            self.lamb += other.lamb  # reorganization energy is additive\n            if self.temperature != other.temperature:\n                raise Exception(\"Cannot add two correlation functions on different temperatures\")\n    \n", 1)]},
+         "            # refuse before anything is changed\n            if self.temperature != other.temperature:\n                raise Exception(\"Cannot add two correlation functions on different temperatures\")\n    \n            self.data += other.data\n            # interpolation splines, if any, belong to the earlier data\n            self._splines_initialized = False\n            self.lamb += other.lamb  # reorganization energy is additive\n",
+         "            self.data += other.data\n            # interpolation splines, if any, belong to the earlier data\n            self._splines_initialized = False\n            self.lamb += other.lamb  # reorganization energy is additive\n            if self.temperature != other.temperature:\n                raise Exception(\"Cannot add two correlation functions on different temperatures\")\n    \n", 1)]},
     {"name": "spectral density copied under the caller's units (the repaired defect)", "kind": "mutant", "rule": "C09-E", "edits": [
         ("quantarhei/qm/corfunctions/spectraldensities.py",
          "        with energy_units(\"int\"):\n            sd = SpectralDensity(self.axis, self.params)\n        return sd",
@@ -148,4 +148,19 @@ CASES += [
         ("quantarhei/qm/corfunctions/correlationfunctions.py", "    energy_params = CorrelationFunction.energy_params\n", "    energy_params = (\"reorg\", \"omega\", \"freq\")\n", 1)]},
     {"name": "spectral density forgets gamma", "kind": "mutant", "rule": "C09-E", "edits": [
         ("quantarhei/qm/corfunctions/spectraldensities.py", "                     \"freq1\", \"freq2\", \"gamma\")", "                     \"freq1\", \"freq2\")", 1)]},
+]
+
+CASES += [
+    {"name": "spectral density measures its reorganisation energy in internal units (the repaired defect)", "kind": "mutant", "rule": "C09-I", "edits": [
+        ("quantarhei/qm/corfunctions/spectraldensities.py", "        return self.convert_energy_2_current_u(integ)\n", "        return integ\n", 1)]},
+]
+
+DFN = "quantarhei/core/dfunction.py"
+CASES += [
+    {"name": "in-place sum of correlation functions keeps the old splines (the repaired defect)", "kind": "mutant", "rule": "C09-G", "edits": [
+        ("quantarhei/qm/corfunctions/correlationfunctions.py", "            self.data += ocor.data\n            # interpolation splines, if any, belong to the earlier data\n            self._splines_initialized = False\n", "            self.data += ocor.data\n", 1)]},
+    {"name": "apply_to_data resets a misspelt attribute (the repaired defect)", "kind": "mutant", "rule": "C09-G", "edits": [
+        (DFN, "        self.data = func(self.data)\n        # interpolation splines, if any, belong to the earlier data\n        self._splines_initialized = False\n", "        self.data = func(self.data)\n        self._splines_initiated = False\n", 1)]},
+    {"name": "load_data hook does not drop the splines", "kind": "mutant", "rule": "C09-G", "edits": [
+        (DFN, "            self._has_imag = bool(numpy.iscomplexobj(self.data))\n        self._splines_initialized = False\n", "            self._has_imag = bool(numpy.iscomplexobj(self.data))\n", 1)]},
 ]
